@@ -362,7 +362,7 @@ func runFrame(c FrameCase) *pbt.Result {
 	w.Raw(body)
 	want := ref.Frame(10, 0, p.GetPCODE(), ref.Hash64([]byte(eff)), w.B)
 
-	ln, err := net.Listen("tcp", "127.0.0.1:0")
+	ln, err := listenPrivate()
 	if err != nil {
 		return pbt.Fail("harness cannot listen on loopback: %v", err)
 	}
@@ -567,7 +567,7 @@ type SeqCase struct {
 }
 
 func runFrameSeq(c SeqCase) *pbt.Result {
-	ln, err := net.Listen("tcp", "127.0.0.1:0")
+	ln, err := listenPrivate()
 	if err != nil {
 		return pbt.Fail("harness cannot listen on loopback: %v", err)
 	}
